@@ -72,7 +72,13 @@ TEXT["C12"] = dict(
   note="Sigop cost model covers the script shapes the world generates; megabyte-scale limit cases are not generated.",
   ref="DESIGN.md §5 C12")
 
-READY = ["C01", "C02", "C03", "C04", "C09", "C10", "C12", "C14", "C17", "C19"]
+TEXT["C18"] = dict(
+  technique="deterministic simulation: one real peer.Peer on a harness-owned connection against a scripted remote; seeded byte chunking, simulated timers, caller goroutines and guarded yield points decide the interleaving; handshake model, FIFO/exactly-once completion, goroutine-leak and race-detector oracles",
+  level="Seeded search over both directions, local configurations, remote scripts (valid, out of order, duplicated, unknown, malformed, wrong magic, self connection, obsolete version), chunking down to 1 byte, delays straddling the negotiate/idle/stall/ping timers, stalled remotes, slow listeners, and 1-6 application goroutines queueing messages/inventory and disconnecting before, during and after the handshake; a goroutine can be parked at one of 7 guarded yield sites inside the peer across later events. Oracles O1-O7 of DESIGN §5 C18; binary built with -race.",
+  note="Event-stepped and yield modes are replayable (60-seed x 6-process determinism self-test per run); burst steps are not and are excluded from replay claims. 'Queued before the disconnect' is judged by logical stamps of the calling goroutines. The BIP324 transport inside peer is C19's subject.",
+  ref="DESIGN.md §5 C18")
+
+READY = ["C01", "C02", "C03", "C04", "C09", "C10", "C12", "C14", "C17", "C18", "C19"]
 
 def main():
     verif = os.path.dirname(os.path.abspath(__file__))
